@@ -24,6 +24,16 @@ var linked = "linker-x-variable"
 
 var plain = "variable-string-22"
 
+var firstOfTwo, linkedSecond = "first-of-two-names", "second-name-is-linked"
+
+type opcode byte
+
+func (o opcode) name() string { return "op" }
+
+var ops = []opcode{1, 2, 3, 4, 5, 6, 7, 8, 9}
+
+var opsArr = [...]opcode{1, 2, 3, 4, 5, 6, 7, 8}
+
 var sized = [len("array-length-string")]int{}
 
 type named string
@@ -41,7 +51,8 @@ func f(s string) int {
 	q := &[8]byte{2, 2, 2, 2, 2, 2, 2, 2}
 	short := "short"
 	seven := "7 bytes"
-	return len(plain+"concat-part-abc") + len(b) + len(a) + len(*p) + len(q) + len(short) + len(seven) + len(keptConst)
+	return len(plain+"concat-part-abc") + len(b) + len(a) + len(*p) + len(q) + len(short) + len(seven) + len(keptConst) +
+		len(ops[0].name()) + len(opsArr[1].name()) + len(firstOfTwo) + len(linkedSecond)
 }
 
 //go:nosplit
@@ -70,9 +81,13 @@ func H_C05_L11_traversal() {
 			wantStr[e.Pos()] = constant.StringVal(tv.Value)
 		}
 	}
-	linkStrings := map[*types.Var]string{pkg.Scope().Lookup("linked").(*types.Var): "injected"}
+	linkStrings := map[*types.Var]string{
+		pkg.Scope().Lookup("linked").(*types.Var):       "injected",
+		pkg.Scope().Lookup("linkedSecond").(*types.Var): "injected too",
+	}
 	testPkgToObfuscatorMap = map[string]obfuscator{"p": idObf{}}
 	nameCounter = 0
+	nOrig := len(file.Decls)
 	out := Obfuscate(symx.Rand(), file, info, linkStrings, testNames)
 	testPkgToObfuscatorMap = nil
 	symx.Reach("obfuscated")
@@ -80,26 +95,9 @@ func H_C05_L11_traversal() {
 	e := ev.New()
 	genv := ev.NewEnv(nil)
 	e.Protect(func() {
-		// the proxy declarations AddToFile appended
-		for _, d := range out.Decls {
-			gd, ok := d.(*ast.GenDecl)
-			if !ok {
-				continue
-			}
-			isProxy := false
-			for _, sp := range gd.Specs {
-				switch sp := sp.(type) {
-				case *ast.TypeSpec:
-					_, isProxy = sp.Type.(*ast.StructType)
-				case *ast.ValueSpec:
-					if len(sp.Values) == 1 {
-						_, isProxy = sp.Values[0].(*ast.CompositeLit)
-					}
-				}
-			}
-			if isProxy && gd.Tok != token.CONST {
-				e.Decl(genv, gd)
-			}
+		// the proxy declarations AddToFile appended after the file's own
+		for _, d := range out.Decls[nOrig:] {
+			e.Decl(genv, d.(*ast.GenDecl))
 		}
 	})
 	rewrittenStrings := map[string]bool{}
@@ -138,9 +136,19 @@ func H_C05_L11_traversal() {
 	for _, s := range []string{"variable-string-22", "concat-part-abc", "case-label-string"} {
 		symx.Assert(rewrittenStrings[s], "rewritten: "+s)
 	}
-	for _, s := range []string{"constant-string-1", "typed-constant-xx", "linker-x-variable", "nosplit-string-x", "short", "7 bytes", "array-length-string"} {
+	for _, s := range []string{"constant-string-1", "typed-constant-xx", "linker-x-variable", "second-name-is-linked", "nosplit-string-x", "short", "7 bytes", "array-length-string"} {
 		symx.Assert(keptLits[s] && !rewrittenStrings[s], "left as a literal: "+s)
 	}
-	symx.Assert(rewrittenBytes == 4, "the four byte composite literals are rewritten")
+	symx.Assert(rewrittenBytes == 4, "exactly the four []byte / [N]byte composite literals are rewritten")
+	// the rewritten file must still type-check: every declaration keeps a type its uses accept
+	info2 := &types.Info{Types: map[ast.Expr]types.TypeAndValue{}, Defs: map[*ast.Ident]types.Object{}, Uses: map[*ast.Ident]types.Object{}}
+	var firstErr string
+	conf := &types.Config{Error: func(err error) {
+		if firstErr == "" {
+			firstErr = err.Error()
+		}
+	}}
+	conf.Check("p", fset, []*ast.File{out}, info2)
+	symx.Assert(firstErr == "", "the obfuscated file still type-checks: "+firstErr)
 	symx.Observe("rewritten", len(rewrittenStrings), rewrittenBytes)
 }
